@@ -176,6 +176,24 @@ def run_one(ctx, src, scopes, config, keep, workdir, cli=False):
             extra_paths = [p0]
             ctx.feature('cli_two_carts_one_invocation')
         ctx.extra['_prev_cli_src'] = src
+        if ctx.monitors.get('cli_runs', 0) % 3 == 2 and b'\x00' not in src and len(src) < 12000:
+            # the same command on a .p8.png cart: the options reach the writer whatever the format of the cart
+            pp = os.path.join(workdir, ambient.BASE[0] + '-png.p8.png')
+            with open(pp, 'wb') as fh:
+                fh.write(rc.write_p8png(regions, rc.raw_code_area(src) if len(src) % 2 else rc.code_area_from_items(rc.c_greedy(src), len(src)), 8))
+            try:
+                tool.main(argv + [pp])
+                r = rc.read_p8png(open(os.path.join(workdir, ambient.BASE[0] + '-png_fmt.p8.png'), 'rb').read())
+                gotp = rc.strip_future(rc.decode_code_area(r['code_area'], r['version']))
+            except BaseException as e:
+                ctx.violation('p8tool luamin failed on a .p8.png cart: %r' % (e,), case)
+                return
+            wantp = src if src.endswith(b'\n') else src + b'\n'
+            prp, pairsp, _ = minify.align(wantp, gotp if gotp.endswith(b'\n') else gotp + b'\n', None)
+            ctx.monitor('cli_png_runs')
+            if prp is None:
+                if not check_mapping(ctx, pairsp, config, keep, dict(case, route='luamin on a .p8.png cart')):
+                    return
         try:
             rcode = tool.main(argv + extra_paths + [p1])
             got = rc.read_p8(open(os.path.join(workdir, ambient.BASE[0] + '_fmt.p8'), 'rb').read())['code']
@@ -476,6 +494,8 @@ def gates(m, tier):
                       % (f.get('keepfile_names_by_first_byte', 0), mon.get('reused_args_runs', 0)))
     if f.get('keepfile_has_names_before_reserved_candidates', 0) < 1:
         missed.append('keep-file names directly before reserved candidates: %d' % f.get('keepfile_has_names_before_reserved_candidates', 0))
+    if mon.get('cli_png_runs', 0) < 5:
+        missed.append('cli runs on .p8.png carts: %d' % mon.get('cli_png_runs', 0))
     if mon.get('cli_runs', 0) < 10:
         missed.append('cli runs: %d' % mon.get('cli_runs', 0))
     return missed
